@@ -276,8 +276,11 @@ struct Wr {
 };
 }
 
-Bytes content_encode(const Content& c)
+Bytes content_encode(const Content& c, const std::vector<uint32_t>* disk_order)
 {
+	std::vector<uint32_t> order;
+	if (disk_order) order = *disk_order;
+	else for (uint32_t k = 0; k < c.maps.size(); ++k) order.push_back(k);
 	Wr w;
 	w.o = c.version == 3 ? Bytes("SNAPCNT3\n\3\0\0", 12) : Bytes("SNAPCNT2\n\3\0\0", 12);
 	w.c('z'); w.var(c.block_size);
@@ -296,7 +299,8 @@ Bytes content_encode(const Content& c)
 			w.c('P'); w.var(p.level); w.var(p.total_blocks); w.var(p.free_blocks); w.str(p.splits.empty() ? "" : p.splits[0].uuid);
 		}
 	}
-	for (uint32_t mi = 0; mi < c.maps.size(); ++mi) {
+	for (uint32_t mi : order) {
+		if (mi >= c.maps.size()) continue;
 		for (auto& f : c.files) {
 			if (f.map_idx != mi) continue;
 			w.c('f'); w.var(mi); w.var(f.size); w.var((uint64_t)f.mtime_sec);
